@@ -43,7 +43,13 @@ class DstScenario:
         self.events = []
 
     # -- single events; each returns an Obs with .ev set
+    pdu_dt = False  # if set, every PDU delivery may be preceded by a symbolic clock advance
+
     def _deliver(self, pdu, ev):
+        if self.pdu_dt:
+            dt = self.ctx.int(f"{self.vp}pdt{len(self.events)}", 0, 2)
+            self.w.tick(dt)
+            ev = ev + ("dt", dt)
         o = self.rig.sm(self.w.wire(pdu))
         return self._done(o, ev)
 
